@@ -268,6 +268,9 @@ func (x *X) external(fr *Frame, st *State, fn *ssa.Function, args []SV, cc *ssa.
 		x.enc.assumption("external " + name + ": " + note)
 		return rets
 	}
+	if r, ok := x.bigModel(st, name, fn, argT, len(args)); ok {
+		return r
+	}
 	switch name {
 	case "fmt.Errorf":
 		return []SV{x.errorf(fr, st, args, cc)}
